@@ -279,10 +279,17 @@ func c15PingCalls(r *fw.R, d c15Desc) {
 		closeSeq = tick()
 		c.CloseNow()
 	}
+	// (a Ping whose context ends closes the connection, as documented, so the first
+	// cancellation is also the moment from which every other waiting Ping may fail)
+	var firstEnd uint64 = closeSeq
 	for i, cl := range calls {
 		if d.Policy[i] == "withhold" || d.Policy[i] == "foreign" {
 			if d.Ender == "cancel" {
 				cl.cancelSeq = tick()
+				if firstEnd == 0 {
+					firstEnd = cl.cancelSeq
+				}
+				cl.cancelSeq = firstEnd
 				cl.cancel()
 			} else {
 				cl.cancelSeq = closeSeq
